@@ -62,12 +62,16 @@ class Stream:
             ctx.broken("harness-run:" + name, "the harness command %s failed (rc=%d)" % (cmd, rc), out[-3000:])
             return
         base = os.path.join(ctx.dir, name)
-        err = run_driver_sharded(cmd if cmd != "ostypepair" and cmd != "ostypevol" else "ostype", base + ".cases", base + ".model")
-        if err:
-            ctx.broken("model-run:" + name, "the model driver failed on stream " + name, err[-3000:])
-            return
         rd = lambda ext: open(base + ext).read().splitlines()
-        self.cases, self.model, self.observed = rd(".cases"), rd(".model"), rd(".observed")
+        if need_model:
+            err = run_driver_sharded(cmd if cmd != "ostypepair" and cmd != "ostypevol" else "ostype", base + ".cases", base + ".model")
+            if err:
+                ctx.broken("model-run:" + name, "the model driver failed on stream " + name, err[-3000:])
+                return
+            self.cases, self.model, self.observed = rd(".cases"), rd(".model"), rd(".observed")
+        else:
+            self.cases, self.observed = rd(".cases"), rd(".observed")
+            self.model = list(self.observed)
         self.stats = {}
         if replay_lines is None:
             try:
@@ -145,7 +149,7 @@ def report_model_mismatches(ctx, s, what, limit=2):
         if r.ok and r.mism:
             _, c2, m, o = r.mism[0]
         d = first_diff(case, m, o)
-        ctx.violation(s.name, what % len(s.mism), {"stream": desc(s.name, s.cmd, s.tags), "case": case, "model": m, "observed": o,
+        ctx.violation(s.name, what % len(s.mism), {"c17": desc(s.name, s.cmd, s.tags), "case": case, "model": m, "observed": o,
                                                    "first_difference": d, "mismatching_cases_in_run": len(s.mism)})
 
 
@@ -186,14 +190,14 @@ def pairwise(ctx, fsname, cases, observed):
             if "notype" not in reported:
                 reported.add("notype")
                 ctx.violation("pair-" + fsname, "%s built with -tags %s does not take the requested OS type" % (fsname, TAG),
-                              {"stream": desc("ostypepair", "ostypepair", TAG), "case": cw, "observed": ow})
+                              {"c17": desc("ostypepair", "ostypepair", TAG), "case": cw, "observed": ow})
             continue
         for j in range(len(opsl)):
             if j >= len(rl) or j >= len(rw):
                 if len(rl) != len(rw) and "len" not in reported:
                     reported.add("len")
                     ctx.violation("pair-" + fsname, "%s: one OS type ended the history (panic / deadlock) where the other did not" % fsname,
-                                  {"stream": desc("ostypepair", "ostypepair", TAG), "case": cw, "case_linux": cl, "observed": ow, "observed_linux": ol})
+                                  {"c17": desc("ostypepair", "ostypepair", TAG), "case": cw, "case_linux": cl, "observed": ow, "observed_linux": ol})
                 break
             stats["calls_compared"] += 1
             op = opsl[j].split()[0]
@@ -208,7 +212,7 @@ def pairwise(ctx, fsname, cases, observed):
                     if wrong and ("errclass", osn) not in reported:
                         reported.add(("errclass", osn))
                         ctx.violation("pair-" + fsname, "%s typed %s returned the error value %s%s of the other OS" % (osn, fsname, cls, num),
-                                      {"stream": desc("ostypepair", "ostypepair", TAG), "case": " | ".join((cw if osn == "windows" else cl).split(" | ")[:j + 2]),
+                                      {"c17": desc("ostypepair", "ostypepair", TAG), "case": " | ".join((cw if osn == "windows" else cl).split(" | ")[:j + 2]),
                                        "step": j, "result": res})
             same_ok = is_ok(a) == is_ok(b)
             same_tree = norm_digest(a) == norm_digest(b)
@@ -230,7 +234,7 @@ def pairwise(ctx, fsname, cases, observed):
             ctx.violation("pair-" + fsname,
                           "%s: the Windows-typed and the Linux-typed file system disagree on call %s (linux: %s, windows: %s, normalised trees %s)"
                           % (fsname, op, a.split(" #")[0], b.split(" #")[0], "equal" if same_tree else "DIFFERENT"),
-                          {"stream": desc("ostypepair", "ostypepair", TAG), "case": " | ".join(cw.split(" | ")[:j + 2]),
+                          {"c17": desc("ostypepair", "ostypepair", TAG), "case": " | ".join(cw.split(" | ")[:j + 2]),
                            "case_linux": " | ".join(cl.split(" | ")[:j + 2]), "step": j, "linux": a, "windows": b})
             break
     return stats
@@ -242,26 +246,28 @@ def info_part(ctx):
     for tags in (TAG, ""):
         s = Stream(ctx, "ostypeinfo-" + ("tag" if tags else "notag"), "ostypeinfo", tags=tags)
         if not s.ok:
-            return None
+            continue
         s.account(ctx)
         report_model_mismatches(ctx, s, "what a freshly constructed file system reports (OS type, separator, feature, cwd, volumes, default modes) "
                                         "differs from the model of SetOSType/NewWithOptions on %d configurations")
         res[tags] = dict(zip(s.cases, s.observed))
     # property-level expectations, independent of the model
-    t = res[TAG]
+    t = res.get(TAG, {})
     for fs in ("memfs", "orefafs"):
-        w = t.get("info %s windows tag" % fs, "")
-        l = t.get("info %s linux tag" % fs, "")
-        if not (w.startswith("type=2 sep=92 feat=1 cwd=s433a5c ") and "dmode=2147484159 fmode=438" in w):
-            ctx.violation("info", "a Windows-typed %s on the tagged build does not report type Windows, separator '\\', cwd C:\\ and the Windows default modes" % fs,
-                          {"stream": desc("ostypeinfo-tag", "ostypeinfo", TAG), "case": "info %s windows tag" % fs, "observed": w})
-        if not (l.startswith("type=1 sep=47 feat=1 cwd=s2f ") and "dmode=2147483648 fmode=0" in l):
-            ctx.violation("info", "a Linux-typed %s on the tagged build does not report type Linux, separator '/', cwd / and the POSIX default modes" % fs,
-                          {"stream": desc("ostypeinfo-tag", "ostypeinfo", TAG), "case": "info %s linux tag" % fs, "observed": l})
-        n = res[""].get("info %s windows notag" % fs, "")
-        if not n.startswith("refused"):
-            ctx.violation("info", "without the build tag a foreign OS type is accepted by %s" % fs,
-                          {"stream": desc("ostypeinfo-notag", "ostypeinfo", ""), "case": "info %s windows notag" % fs, "observed": n})
+        if TAG in res:
+            w = t.get("info %s windows tag" % fs, "")
+            l = t.get("info %s linux tag" % fs, "")
+            if not (w.startswith("type=2 sep=92 feat=1 cwd=s433a5c ") and "dmode=2147484159 fmode=438" in w):
+                ctx.violation("info", "a Windows-typed %s on the tagged build does not report type Windows, separator '\\', cwd C:\\ and the Windows default modes" % fs,
+                              {"c17": desc("ostypeinfo-tag", "ostypeinfo", TAG), "case": "info %s windows tag" % fs, "observed": w})
+            if not (l.startswith("type=1 sep=47 feat=1 cwd=s2f ") and "dmode=2147483648 fmode=0" in l):
+                ctx.violation("info", "a Linux-typed %s on the tagged build does not report type Linux, separator '/', cwd / and the POSIX default modes" % fs,
+                              {"c17": desc("ostypeinfo-tag", "ostypeinfo", TAG), "case": "info %s linux tag" % fs, "observed": l})
+        if "" in res:
+            n = res[""].get("info %s windows notag" % fs, "")
+            if not n.startswith("refused"):
+                ctx.violation("info", "without the build tag a foreign OS type is accepted by %s" % fs,
+                              {"c17": desc("ostypeinfo-notag", "ostypeinfo", ""), "case": "info %s windows notag" % fs, "observed": n})
     e = next((k for k in ctx.kf if k["id"] == KF_OREFA_VOL), None)
     if e is not None and "volmgr=0" in t.get("info orefafs windows tag", ""):
         ctx.known_finding(e["id"], e["what"])
@@ -278,7 +284,7 @@ def atie_part(ctx):
     report_model_mismatches(ctx, s, "MemFS built with -tags avfs_setostype differs from its Coq model on %d generated histories (both OS types, volume calls)")
     if any(o.startswith("NOTYPE") for o in s.observed):
         ctx.violation("ostype", "MemFS built with -tags %s does not take the requested OS type" % TAG,
-                      {"stream": desc("ostype", "ostype", TAG), "case": s.cases[0], "observed": s.observed[0]})
+                      {"c17": desc("ostype", "ostype", TAG), "case": s.cases[0], "observed": s.observed[0]})
     # panics on a missing volume (known finding): the fixed witness is replayed every run; the model predicts the
     # panic too (it mirrors the nil dereference), which does not make it less of a defect
     e = next((k for k in ctx.kf if k["id"] == KF_UNC_PANIC), None)
@@ -294,7 +300,7 @@ def atie_part(ctx):
     if panics and e is None:
         c, o = panics[0]
         ctx.violation("ostype", "a call on a Windows-typed MemFS panics (%d histories)" % len(panics),
-                      {"stream": desc("ostype", "ostype", TAG), "case": " | ".join(c.split(" | ")[:len(o.split(" | ")) + 1]), "observed": o})
+                      {"c17": desc("ostype", "ostype", TAG), "case": " | ".join(c.split(" | ")[:len(o.split(" | ")) + 1]), "observed": o})
     # the Linux-typed histories on the untagged build: same answers as the model, hence as the tagged build
     u = Stream(ctx, "ostype-notag", "ostype", tags="", replay_lines=lin)
     if not u.ok:
@@ -305,7 +311,7 @@ def atie_part(ctx):
     diff = [(i, c, tagged[c], o) for i, (c, o) in enumerate(zip(u.cases, u.observed)) if tagged.get(c) != o]
     for (i, c, a, b) in diff[:1]:
         ctx.violation("ostype-notag", "a Linux-typed MemFS behaves differently on the build with and without -tags %s (%d histories)" % (TAG, len(diff)),
-                      {"stream": desc("ostype-notag", "ostype", ""), "case": c, "tagged_build": a, "untagged_build": b, "first_difference": first_diff(c, a, b)})
+                      {"c17": desc("ostype-notag", "ostype", ""), "case": c, "tagged_build": a, "untagged_build": b, "first_difference": first_diff(c, a, b)})
     return s
 
 
@@ -355,7 +361,7 @@ def vol_part(ctx):
             break
     if bad:
         ctx.violation("ostypevol", "volume management is not the set of added names: " + bad[2],
-                      {"stream": desc("ostypevol", "ostypevol", TAG), "case": bad[0], "observed": bad[1]})
+                      {"c17": desc("ostypevol", "ostypevol", TAG), "case": bad[0], "observed": bad[1]})
 
 
 def pair_part(ctx):
@@ -396,13 +402,18 @@ def check_C17(ctx):
     proofs_ok = ctx.proofs(extra_obligations=len(GEN_OBLIGATIONS))
     ctx.coverage["generated_obligations"] = GEN_OBLIGATIONS
     nviol = len(ctx.violations)
-    info_part(ctx)
-    atie_part(ctx)
-    vol_part(ctx)
-    pair_part(ctx)
+    info = info_part(ctx)
+    constructible = TAG in info and all(not info[TAG].get("info %s windows tag" % fs, "refused").startswith("refused")
+                                        for fs in ("memfs", "orefafs"))
+    if constructible:
+        atie_part(ctx)
+        vol_part(ctx)
+        pair_part(ctx)
+    else:
+        ctx.coverage["streams"]["skipped"] = "a Windows-typed file system cannot be constructed on the tagged build: the history streams were not run"
     if not proofs_ok and len(ctx.violations) > nviol:
         # the search found a concrete failing input: the bare "broken obligation" entry is superseded
-        ctx.violations = [v for v in ctx.violations if v.found_input] or ctx.violations
+        ctx.violations = [v for v in ctx.violations if v.found_input or "crash" in v.what] or ctx.violations
     e = next((k for k in ctx.kf if k["id"] == KF_NOTAG_SILENT), None)
     if e is not None:
         ctx.known_finding(e["id"], e["what"])
@@ -413,4 +424,35 @@ def check_C17(ctx):
     ]
 
 
+def replay_C17(ctx, obj):
+    """Re-execute the case of a replay file against the current tree: model vs implementation and, where the file
+    holds the two spellings of a portable history, the pairwise comparison."""
+    d = obj["c17"]
+    lines = ([obj["case_linux"]] if "case_linux" in obj else []) + [obj["case"]]
+    s = Stream(ctx, d["name"] + "-replay", d["harness"], tags=d.get("tags", TAG), replay_lines=lines,
+               need_model=not lines[0].startswith("orefafs"))
+    if not s.ok:
+        return ctx.finish(write_evidence=False)
+    for c, m, o in zip(s.cases, s.model, s.observed):
+        print("case:     %s\nmodel:    %s\nobserved: %s" % (c, m, o))
+    if s.mism:
+        i, c, m, o = s.mism[0]
+        ctx.violation("replay", "implementation and model still differ on the replayed case", {"c17": d, "case": c, "model": m, "observed": o})
+    if len(lines) == 2:
+        pairwise(ctx, s.cases[0].split()[0], s.cases, s.observed)
+    if d["harness"] == "ostypeinfo":
+        for c, o in zip(s.cases, s.observed):
+            f = c.split()
+            bad = (f[3] == "tag" and f[2] == "windows" and not o.startswith("type=2 sep=92 feat=1 cwd=s433a5c ")) or \
+                  (f[3] == "tag" and f[2] == "linux" and not o.startswith("type=1 sep=47 feat=1 cwd=s2f ")) or \
+                  (f[3] == "notag" and f[2] == "windows" and not o.startswith("refused"))
+            if bad:
+                ctx.violation("replay", "the freshly constructed file system still reports the wrong configuration", {"c17": d, "case": c, "observed": o})
+    if not ctx.violations:
+        print("replay: the case no longer fails")
+    return ctx.finish(write_evidence=False)
+
+
+from ..props import REPLAYERS
+REPLAYERS["C17"] = replay_C17
 CHECKS["C17"] = check_C17
